@@ -15,6 +15,7 @@ trap 'rm -rf "$D"' EXIT
 rsync -a --exclude .git --exclude .seed /repo/ "$D/"
 # where does the demo go? first "cp .seed/N/demo_test.go <dest>" in the README, else look at its package clause
 DEST=$(grep -o 'cp [^ ]*demo_test.go [^ &;`)]*' "$SEED/README.md" | head -1 | awk '{print $3}')
+case "$DEST" in /*) DEST="";; esac
 PKG=$(grep -m1 '^package ' "$SEED/demo_test.go" | awk '{print $2}')
 if [ -z "$DEST" ]; then
   case "$PKG" in
